@@ -33,7 +33,7 @@ from infretis.core import tis
 class Spec:
     def __init__(self, B=3, workers=1, moves=None, cap=None, maxlength=12, alphabet="sh",
                  engine_layout="single", seed=0, steps=10**6, scripted=True, real_store=False,
-                 n_jumps=None, restart_at=None, delete_old=False):
+                 n_jumps=None, restart_at=None, delete_old=False, extra=None):
         self.B = B
         self.workers = workers
         self.moves = moves or ["sh"] * B
@@ -47,10 +47,11 @@ class Spec:
         self.real_store = real_store
         self.n_jumps = n_jumps
         self.delete_old = delete_old
+        self.extra = extra or {}  # further scenario.build keywords (lambda_minus_one, quantis, ...)
 
     def key(self):
         return (self.B, self.workers, tuple(self.moves), self.cap, self.maxlength, self.alphabet,
-                self.engine_layout, self.seed)
+                self.engine_layout, self.seed, repr(sorted(self.extra.items())))
 
     def __repr__(self):
         return (f"Spec(B={self.B}, W={self.workers}, moves={self.moves}, cap={self.cap}, "
@@ -372,6 +373,7 @@ def _template(spec):
             eng0 = dict(scenario.toml_dict(B=spec.B)["engine"])
             kw["extra_engines"] = {"engine0": eng0}
             kw["ensemble_engines"] = [["engine0"]] + [["engine"]] * (spec.B - 1)
+        kw.update(spec.extra)
         scenario.build(d, **kw)
         _TEMPLATES[k] = d
     return _TEMPLATES[k]
@@ -560,7 +562,7 @@ def _guard(fn):
 def spec_to_json(spec):
     return dict(B=spec.B, workers=spec.workers, moves=spec.moves, cap=spec.cap, maxlength=spec.maxlength,
                 alphabet=spec.alphabet, engine_layout=spec.engine_layout, seed=spec.seed, steps=spec.steps,
-                n_jumps=spec.n_jumps)
+                n_jumps=spec.n_jumps, extra=spec.extra)
 
 
 def spec_from_json(d):
